@@ -93,6 +93,8 @@ def run(sc, speculative):
     if hasnl:
         cfg["nonlinear_constraints"] = ({"lower_bounds": [-INF, -INF], "upper_bounds": [INF, 100.0]} if monitor
                                         else {"lower_bounds": [-INF], "upper_bounds": [100.0]})
+        if cls == "pop":      # a second constraint behind the judged one: the population's values come as (constraints, members)
+            cfg["nonlinear_constraints"] = {"lower_bounds": [-INF, -INF], "upper_bounds": [100.0, 5000.0]}
     if haslin:
         cfg["linear_constraints"] = {"coefficients": [[1.0, 1.0] + ([0.0] if cls == "pop" else [])], "lower_bounds": [-INF], "upper_bounds": [50.0]}
     # a variable transform as an orthogonal switch: the algorithm's points (the pool) are optimizer coordinates, the
@@ -134,6 +136,8 @@ def run(sc, speculative):
         cons = fcon(variables)[:, None] if hasnl else None
         if monitor:
             cons = np.concatenate([(777.0 + variables[:, :1]), cons], axis=1)
+        if cls == "pop" and hasnl:
+            cons = np.concatenate([cons, 3.0 * cons + 1.0 + variables[:, :1]], axis=1)
         return EvaluatorResult(objectives=objectives, constraints=cons)
 
     events = []
